@@ -58,7 +58,7 @@ def run(rep, tier, seed):
     rep.coverage["rule"] = (
         "fresh handshakes (new ephemeral keys each) x announced names {absent, empty, ascii, utf-8, long} x expected-name settings x 0-30 messages "
         "(ids incl. 300 and 65535, payloads 0-300 bytes) x chunkings {one chunk, 1-byte chunks, frame boundaries, random multi-cut, dense cuts inside a header, every frame split with the next piece ending 0-3 bytes into the following frame}; "
-        "thorough adds every single cut position of 40 sessions; non-trivial = some frame is split across calls or the name is rejected; distinct by (name, expected, message sizes, cuts)")
+        "thorough adds every single cut position of 40 sessions; plus real APIConnection sessions with messages encrypted right behind the handshake frame x chunkings, and consecutive sessions of one APIClient with differently named devices; non-trivial = some frame is split across calls or the name is rejected; distinct by (name, expected, message sizes, cuts)")
     proofs_ok = rep.proofs(VFILE)
     ok, log = common.build_driver()
     if not ok:
@@ -153,6 +153,29 @@ def run(rep, tier, seed):
                     if f"FATAL:{want}" not in flat or f"RERR:{want}" not in flat:
                         rep.violation("C03/bad-name-error", f"name mismatch must be reported as BadName carrying {name!r}; observed {flat[:6]}", replay)
             metas.append(replay)
+    # ---- the same sessions through the real APIConnection / APIClient: what the responder encrypted right behind its handshake
+    # frame is delivered whatever the segmentation, and the name rule is applied afresh in every session of a client
+    from vlib import simnet
+    for trial in range(12 if tier == "quick" else 80):
+        k = rng.choice([1, 2, 3, 5])
+        mode = ["one", "frames", "bytes", "random"][trial % 4]
+        got, want, err = simnet.run(lambda loop: conn_early_data_case(loop, rng, k, mode))
+        rep.case(("conn-early", k, mode, trial), True, sample={"conn_early_data": {"messages": k, "chunking": mode, "delivered": len(got)}})
+        rep.bump("conn-early:" + mode)
+        if got != want or err:
+            rep.violation("C03/connection-delivery", f"APIConnection over Noise, {k} message(s) encrypted right behind the handshake frame, chunking '{mode}': "
+                          f"delivered {got}, the responder sent {want}{' ; ' + err if err else ''}",
+                          {"kind": "impl-case", "variant": "conn-early-data", "messages": k, "chunking": mode})
+    for names, expected in ((["dev", "other"], None), (["dev", "dev"], None), (["other", "dev"], None), (["dev", "dev"], "dev"), (["dev", "other"], "dev"), (["other", "dev"], "dev")):
+        outs = simnet.run(lambda loop: client_sessions_case(loop, names, expected))
+        want = ["ok" if (expected is None or n == expected) else "L.BadName" for n in names]
+        rep.case(("client-sessions", tuple(names), expected), True, sample={"client_sessions": names, "expected_name": expected, "outcomes": outs})
+        rep.bump("client-sessions")
+        if outs != want:
+            rep.violation("C03/name-rule-across-sessions", f"one APIClient (expected_name={expected!r}), consecutive Noise sessions with devices announcing {names}: "
+                          f"outcomes {outs}, the name rule gives {want}",
+                          {"kind": "impl-case", "variant": "client-sessions", "names": names, "expected": expected})
+
     mout = common.run_driver(lines)
     disagreements = [{"case": m, "impl": i[:800], "model": o[:800]} for m, i, o in zip(metas, impls, mout) if i != o]
     rep.coverage["disagreements"] = len(disagreements)
@@ -162,6 +185,104 @@ def run(rep, tier, seed):
                                 "first_disagreements": disagreements[:3]}))
     if not proofs_ok and not rep.violations:
         rep.proof_broken(rep.broken[0], rep.broken[1])
+
+
+async def conn_early_data_case(loop, rng, k, mode):
+    """Noise session on a real APIConnection; the device encrypts k messages immediately after its handshake frame."""
+    from aioesphomeapi import api_pb2 as pb
+    from aioesphomeapi.connection import APIConnection, ConnectionParams
+    from aioesphomeapi.zeroconf import ZeroconfManager
+    from vlib import noisesim, simnet
+    net = simnet.Net(loop)
+    psk = bytes(range(1, 33))
+    params = ConnectionParams(addresses=["10.0.0.1"], port=6053, password=None, client_info="v", keepalive=20.0,
+                              zeroconf_manager=ZeroconfManager(), noise_psk=noisesim.b64(psk), expected_name=None)
+    conn = APIConnection(params, lambda e: None, False, None)
+    got = []
+    conn.add_message_callback(lambda m: got.append(("sensor", m.key)), (pb.SensorStateResponse,))
+    conn.add_message_callback(lambda m: got.append(("log", m.message)), (pb.SubscribeLogsResponse,))
+    err = None
+    with net.patched():
+        await conn.start_connection()
+        task = asyncio.ensure_future(conn.finish_connection(login=False))
+        await simnet.drain(loop)
+        tr = net.transports[-1]
+        frames = noisesim.split_frames(b"".join(d for _, d in tr.writes))
+        resp = noisesim.Responder(psk, b"dev")
+        hs, _ = resp.handshake_frames(frames[1][1:])
+        parts, want = [resp.hello_frame(), hs], []
+        for i in range(k):
+            if i % 2 == 0:
+                parts.append(resp.data_frame(25, pb.SensorStateResponse(key=100 + i, state=1.5).SerializeToString())[0])
+                want.append(("sensor", 100 + i))
+            else:
+                parts.append(resp.data_frame(29, pb.SubscribeLogsResponse(message=b"m%d" % i).SerializeToString())[0])
+                want.append(("log", b"m%d" % i))
+        stream = b"".join(parts)
+        if mode == "one":
+            chunks = [stream]
+        elif mode == "frames":
+            chunks = [parts[0], parts[1] + parts[2]] + parts[3:]
+        elif mode == "bytes":
+            chunks = [stream[i:i + 1] for i in range(len(stream))]
+        else:
+            cuts = sorted(rng.randrange(0, len(stream) + 1) for _ in range(3))
+            chunks = [stream[a:b] for a, b in zip([0] + cuts, cuts + [len(stream)])]
+        for c in chunks:
+            tr.feed(c)
+        await simnet.drain(loop)
+        # then the ordinary hello exchange completes the connect
+        tr.feed(resp.data_frame(2, pb.HelloResponse(api_version_major=1, api_version_minor=10, name="dev").SerializeToString())[0])
+        await simnet.drain(loop)
+        if not task.done():
+            err = "finish_connection still pending after the HelloResponse"
+            task.cancel()
+        elif task.exception() is not None:
+            err = f"finish_connection raised {type(task.exception()).__name__}"
+        conn.force_disconnect()
+        await simnet.drain(loop)
+    return got, want, err
+
+
+async def client_sessions_case(loop, names, expected):
+    """Consecutive Noise sessions of one APIClient with devices announcing `names` (server hello and HelloResponse)."""
+    from aioesphomeapi import api_pb2 as pb
+    from aioesphomeapi.client import APIClient
+    from vlib import conntrace, noisesim, simnet
+    net = simnet.Net(loop)
+    psk = bytes(range(1, 33))
+    outs = []
+    with net.patched():
+        cli = APIClient("10.0.0.1", 6053, None, noise_psk=noisesim.b64(psk), expected_name=expected)
+        for name in names:
+            try:
+                await cli.start_connection()
+                task = asyncio.ensure_future(cli.finish_connection(login=False))
+                await simnet.drain(loop)
+                tr = net.transports[-1]
+                frames = noisesim.split_frames(b"".join(d for _, d in tr.writes))
+                resp = noisesim.Responder(psk, name.encode())
+                hs, _ = resp.handshake_frames(frames[1][1:])
+                tr.feed(resp.hello_frame() + hs)
+                await simnet.drain(loop)
+                if not task.done():
+                    tr.feed(resp.data_frame(2, pb.HelloResponse(api_version_major=1, api_version_minor=10, name=name).SerializeToString())[0])
+                    await simnet.drain(loop)
+                if not task.done():
+                    task.cancel()
+                    outs.append("pending")
+                elif task.exception() is None:
+                    outs.append("ok")
+                else:
+                    outs.append(conntrace.exc_name(task.exception()))
+            except Exception as e:  # noqa: BLE001
+                outs.append(conntrace.exc_name(e))
+            try:
+                await cli.disconnect(force=True)
+            except Exception:  # noqa: BLE001
+                pass
+            await simnet.drain(loop)
+    return outs
 
 
 def replay(path):
